@@ -22,6 +22,7 @@ ALPHABETS = [
     "😀🎬 ​  emoji",
     " leading and trailing ",
     "e\u0301a\u0308o\u0302\u212b\u2126n\u0303 x",     # decomposed sequences and singleton equivalents (not NFC-stable)
+    "ab\u2028cd\u2029e\u00a0\u200b\u202f\u3000 x",           # Unicode line / paragraph separators and odd spaces (not control characters)
 ]
 
 
